@@ -22,6 +22,7 @@ func init() {
 	register(&Prop{
 		ID: "C16",
 		Rule: "ground-truth polygon sets on the integer lattice (1..3 disjoint outers: rectangles, L-shapes, octagons; 0..2 rectangular holes each, strictly inside; no vertex at 0,0) cut at every/random vertex subsets into 1..5 pieces per ring, each piece reversed or not, members shuffled, coordinates from node objects or from annotated way nodes, members with correct orientation annotations or none, relation with or without own tags (old-style single outer); small instances enumerate all cut/reverse choices; " +
+			"plus a horseshoe outer with a horseshoe hole (a concave hole whose bounding-box centre lies outside the outer); " +
 			"non-trivial = at least 3 member ways; distinct = distinct op line",
 		Gen: c16Gen,
 		Exec: func(op string) (string, *Violation) {
